@@ -33,7 +33,12 @@ RULE = ("inputs = (a) 1-5 stacked token/byte/line mutations of corpus chunks (di
         "with per-production error injection, (c) cross-chunk line splices, (d) repetition ladders prefix+unit*k+suffix "
         "(k doubling up to 32 KB quick / 128 KB thorough) for 85 fixed and some random families (scaling probe), (e) a lexer "
         "matrix of every (token prefix, pumped unit, stopper) combination at k=20/24/28 (exponential regexes) and a sample at "
-        "k=4096..16384 (polynomial), (f) the minimal witnesses of every mechanism found so far, (g) unmutated chunks for "
+        "k=4096..16384 (polynomial), (f) the matrix of every (numeric/complex/hex literal, builtin element type, attribute context) "
+        "combination and the minimal witnesses of every mechanism found so far, (g) an end-of-input matrix (text ending in every "
+        "proper token prefix in 37 syntactic positions) and truncation of every corpus chunk at its token boundaries and inside "
+        "numeric/string literals (every 40th cut point per quick run, rotated by seed; all of them in thorough), (h) compact-DAG "
+        "ladders: type/attribute alias doubling chains (printed form 2^N) used as result, operand, block-argument, attribute and "
+        "function types and in diagnostics, N growing by 3 per step, (i) unmutated chunks for "
         "calibration; fuzz inputs are parsed with allow_unregistered on (70%) or off. An input is non-trivial if it differs "
         "from its seed chunk and the lexer produced >= 3 tokens (parser got past the first token); distinct = distinct input "
         "texts (sha1)")
@@ -741,7 +746,7 @@ def child_run(job, tasks, a, out: ChildOut):
                        "text_head": c07_mut.pump_text(fam, 4)[:400]}
                 if g is not None and g >= GROWTH:
                     b.violations.append({"key": f"superlinear:{site}", "summary":
-                                         f"pump {fam[0]!r} k={k1} ({r1['len']} chars) took {r1['cpu']:.2f}s CPU (> budget {budget(r1['len']):.2f}s), x{g:.1f} vs k/2",
+                                         f"pump {fam[0]!r} k={k1} ({r1['len']} chars) took {r1['cpu']:.2f}s CPU (> budget {budget(r1['len']):.2f}s), x{g:.1f} vs the previous ladder step",
                                          "witness": wit})
                 else:
                     b.c("over_budget_unconfirmed_observed")
